@@ -4,6 +4,7 @@ set -e
 cd "$(dirname "$0")"
 export GOFLAGS=-mod=mod GOPROXY=off GOSUMDB=off GOTOOLCHAIN=local
 mkdir -p build evidence replays
+(cd tools/gofacts && go build -o ../../build/gofacts . && ../../build/gofacts /repo ../../lean/GfsGen/Facts.lean)
 (cd lean && lake build)
 cp /repo/go.sum harness/go.sum
 (cd harness && go build -tags verif -o ../build/gfsharness ./cmd/gfsharness)
